@@ -26,6 +26,7 @@ pub fn to_text(s: &Scenario, world_name: &str, prop: &str, signature: &str, deta
     let mut o = String::new();
     o.push_str("anysim-scenario v1\n");
     o.push_str(&format!("property {}\n", prop));
+    o.push_str(if cfg!(debug_assertions) { "build checked\n" } else { "build release\n" });
     o.push_str(&format!("world {} {}\n", s.world, world_name));
     o.push_str(&format!("seed {}\n", s.seed));
     o.push_str(&format!(
@@ -84,6 +85,7 @@ pub fn from_text(text: &str) -> Result<Parsed, String> {
         let toks: Vec<&str> = l.split_whitespace().collect();
         match toks[0] {
             "property" => prop = toks.get(1).unwrap_or(&"").to_string(),
+            "build" => {}
             "world" => {
                 scn.world = toks.get(1).ok_or("world id")?.parse().map_err(|_| "world id")?;
                 world_name = toks.get(2).unwrap_or(&"").to_string();
